@@ -32,7 +32,8 @@ TEMPLATES = [("SELECT '$' FROM t", "lit1"), ("SELECT a FROM t WHERE b = '$' AND 
 ATOMS = ["SELECT", "FROM", " ", ";", "(", ")", "[", "]", ",", "--", "/*", "#", "+", "<=>", "||", "&&", "!", "=", "a", "B", "0", "1.5", "0x1F", "NULL", "名", "é", "#{p}", "}",
          "{", ".", "%", "^", "~", "|", "&", "<", ">", "@", "$", "?", ":", "x'", "UNION", "WHERE 1=1", "*",
          "，", "；", "（", "）", "：", "！", "？", "＝", "\n", "CROSS", "sort", "USING", "Cluster", "DISTRIBUTE", "JOIN", "AS", "ON", "LIMIT", "ORDER", "GROUP", "BY", "WITH", "END", "\n    ",
-         "'", '"', "`", "it's", "${x}", "${", "$$", "q\"r", "<![CDATA[", "]]>"]
+         "'", '"', "`", "it's", "${x}", "${", "$$", "q\"r", "<![CDATA[", "]]>",
+         "\u00a0", "\u200b", "\ufeff", "a\u00a0b", "\u2028", "\u00ad", "\uff1d", "\uff08x\uff09", "\u3001", "\u2018x\u2019", "\u201cy\u201d"]
 FORBIDDEN = {"lit1": ["'", "\\"], "lit2": ['"', "\\"], "name": ["`", ".", "\n"], "c1": ["\n"], "c2": ["*/", "*"]}
 
 
